@@ -22,6 +22,38 @@ type C14Case struct {
 	Derived bool `json:"derived,omitempty"`
 	// Muts: later mutations; all views are checked again after each
 	Muts []ViewMut `json:"muts,omitempty"`
+	// Res > 0: the Map variants are probed a second time with callbacks that return something else than
+	// a tag string: 1 always nil, 2 nil for about half of the values and the value itself otherwise,
+	// 3 the zero value of the element's kind (the value itself for nil and containers)
+	Res int `json:"res,omitempty"`
+}
+
+// mapResult is the callback result of the second Map pass.
+func mapResult(mode int, x any) any {
+	switch mode {
+	case 1:
+		return nil
+	case 2:
+		h := 0
+		for _, b := range []byte(tagOf(x)) {
+			h = h*31 + int(b)
+		}
+		if h%2 == 0 {
+			return nil
+		}
+		return x
+	}
+	switch x.(type) {
+	case int:
+		return 0
+	case float64:
+		return 0.0
+	case string:
+		return ""
+	case bool:
+		return false
+	}
+	return x
 }
 
 type ViewMut struct {
@@ -39,6 +71,9 @@ func GenC14(t *rapid.T) *C14Case {
 		alphabet[i] = Kind(drawIdx(t, 7, "kind"))
 	}
 	c := &C14Case{Object: oneIn(t, 3, "obj"), Pred: drawInt(t, 0, 3, "pred"), Route: drawInt(t, 0, numListRoutes-1, "route"), Derived: oneIn(t, 4, "derived")}
+	if drawBool(t, "respass") {
+		c.Res = drawInt(t, 1, 3, "res")
+	}
 	for i := 0; i < n; i++ {
 		c.Kinds = append(c.Kinds, alphabet[drawIdx(t, nk, "k")])
 	}
@@ -200,7 +235,7 @@ func checkListViews(c *C14Case, st *Stats) error {
 	}
 	l := listByRoute(shape, vals, c.Route%numListRoutes, c.Pred)
 	st.Count(fmt.Sprintf("route.%d", c.Route%numListRoutes))
-	if err := verifyListViews(l, vals, c.Kinds, c.Pred, st); err != nil {
+	if err := verifyListViews(l, vals, c.Kinds, c.Pred, c.Res, st); err != nil {
 		return err
 	}
 	// the list changes; every view must describe it as it is then (expectations are re-derived from
@@ -254,14 +289,14 @@ func checkListViews(c *C14Case, st *Stats) error {
 			}
 			nowKinds[i] = k
 		}
-		if err := verifyListViews(l, nowVals, nowKinds, c.Pred, NewStats()); err != nil {
+		if err := verifyListViews(l, nowVals, nowKinds, c.Pred, c.Res, NewStats()); err != nil {
 			return errf("after a later %s: %v", m.Op, err)
 		}
 	}
 	return nil
 }
 
-func verifyListViews(l at.List, vals []any, kinds []Kind, predSel int, st *Stats) error {
+func verifyListViews(l at.List, vals []any, kinds []Kind, predSel int, resMode int, st *Stats) error {
 	n := len(kinds)
 	before, _ := TakeIdentSnap(l)
 	// expected subsequences
@@ -319,6 +354,7 @@ func verifyListViews(l at.List, vals []any, kinds []Kind, predSel int, st *Stats
 		allX    func() bool
 	}
 	calls := 0
+	var res func(any) any = func(x any) any { return tagOf(x) }
 	ops := []kindOps{
 		{KObject, func() []any {
 			var o []any
@@ -327,7 +363,7 @@ func verifyListViews(l at.List, vals []any, kinds []Kind, predSel int, st *Stats
 			}
 			return o
 		}, func() { l.ForEachObject(func(x at.Object) { log = append(log, x) }) },
-			func() at.List { return l.MapObjects(func(x at.Object) any { return tagOf(x) }) },
+			func() at.List { return l.MapObjects(func(x at.Object) any { return res(x) }) },
 			func() at.List { return l.FilterObjects(func(x at.Object) bool { calls++; return pred(calls-1, x) }) }, l.AllObjects},
 		{KList, func() []any {
 			var o []any
@@ -336,7 +372,7 @@ func verifyListViews(l at.List, vals []any, kinds []Kind, predSel int, st *Stats
 			}
 			return o
 		}, func() { l.ForEachList(func(x at.List) { log = append(log, x) }) },
-			func() at.List { return l.MapLists(func(x at.List) any { return tagOf(x) }) },
+			func() at.List { return l.MapLists(func(x at.List) any { return res(x) }) },
 			func() at.List { return l.FilterLists(func(x at.List) bool { calls++; return pred(calls-1, x) }) }, l.AllLists},
 		{KString, func() []any {
 			var o []any
@@ -345,7 +381,7 @@ func verifyListViews(l at.List, vals []any, kinds []Kind, predSel int, st *Stats
 			}
 			return o
 		}, func() { l.ForEachString(func(x string) { log = append(log, x) }) },
-			func() at.List { return l.MapStrings(func(x string) any { return tagOf(x) }) },
+			func() at.List { return l.MapStrings(func(x string) any { return res(x) }) },
 			func() at.List { return l.FilterStrings(func(x string) bool { calls++; return pred(calls-1, x) }) }, l.AllStrings},
 		{KBool, func() []any {
 			var o []any
@@ -354,7 +390,7 @@ func verifyListViews(l at.List, vals []any, kinds []Kind, predSel int, st *Stats
 			}
 			return o
 		}, func() { l.ForEachBool(func(x bool) { log = append(log, x) }) },
-			func() at.List { return l.MapBools(func(x bool) any { return tagOf(x) }) },
+			func() at.List { return l.MapBools(func(x bool) any { return res(x) }) },
 			nil, l.AllBools},
 		{KInt, func() []any {
 			var o []any
@@ -363,7 +399,7 @@ func verifyListViews(l at.List, vals []any, kinds []Kind, predSel int, st *Stats
 			}
 			return o
 		}, func() { l.ForEachInt(func(x int) { log = append(log, x) }) },
-			func() at.List { return l.MapInts(func(x int) any { return tagOf(x) }) },
+			func() at.List { return l.MapInts(func(x int) any { return res(x) }) },
 			func() at.List { return l.FilterInts(func(x int) bool { calls++; return pred(calls-1, x) }) }, l.AllInts},
 		{KFloat, func() []any {
 			var o []any
@@ -372,7 +408,7 @@ func verifyListViews(l at.List, vals []any, kinds []Kind, predSel int, st *Stats
 			}
 			return o
 		}, func() { l.ForEachFloat(func(x float64) { log = append(log, x) }) },
-			func() at.List { return l.MapFloats(func(x float64) any { return tagOf(x) }) },
+			func() at.List { return l.MapFloats(func(x float64) any { return res(x) }) },
 			func() at.List { return l.FilterFloats(func(x float64) bool { calls++; return pred(calls-1, x) }) }, l.AllFloats},
 	}
 	for _, op := range ops {
@@ -388,6 +424,22 @@ func verifyListViews(l at.List, vals []any, kinds []Kind, predSel int, st *Stats
 		}
 		if err := same("Map<"+name+">", tagsAsStrings(op.mapX()), tags(want)); err != nil {
 			return err
+		}
+		if resMode > 0 {
+			// second pass: the callback returns nil / the value itself / a zero value
+			res = func(x any) any { return mapResult(resMode, x) }
+			got := op.mapX()
+			res = func(x any) any { return tagOf(x) }
+			if got.Count() != len(want) {
+				return errf("Map<%s> with a callback returning nil or zero values produced %d elements for %d elements of that kind (%s)", name, got.Count(), len(want), clip(got.String(), 200))
+			}
+			for i, x := range want {
+				exp := mapResult(resMode, x)
+				if g := got.Get(i); !ifaceEq(g, exp) || got.TypeOf(i) != typeOfAny(exp) {
+					return errf("Map<%s> result[%d] = %s, the callback returned %s", name, i, showAny(g), showAny(exp))
+				}
+			}
+			st.Count(fmt.Sprintf("map_result_mode%d.list", resMode))
 		}
 		if op.filter != nil {
 			calls = 0
@@ -471,6 +523,20 @@ func verifyListViews(l at.List, vals []any, kinds []Kind, predSel int, st *Stats
 	if err := same("MapValues", tagsAsStrings(l.MapValues(func(x any) any { return tagOf(x) })), all); err != nil {
 		return err
 	}
+	if resMode > 0 {
+		for pass, got := range []at.List{l.Map(func(i int, x any) any { return mapResult(resMode, x) }), l.MapValues(func(x any) any { return mapResult(resMode, x) })} {
+			what := []string{"Map", "MapValues"}[pass]
+			if got.Count() != len(vals) {
+				return errf("%s with a callback returning nil or zero values produced %d elements for %d elements", what, got.Count(), len(vals))
+			}
+			for i, x := range vals {
+				exp := mapResult(resMode, x)
+				if g := got.Get(i); !ifaceEq(g, exp) || got.TypeOf(i) != typeOfAny(exp) {
+					return errf("%s result[%d] = %s, the callback returned %s", what, i, showAny(g), showAny(exp))
+				}
+			}
+		}
+	}
 	calls = 0
 	if err := idSame("Filter", listVals(l.Filter(func(x any) bool { calls++; return pred(calls-1, x) })), expectFilter(vals)); err != nil {
 		return err
@@ -523,7 +589,7 @@ func checkObjectViews(c *C14Case, st *Stats) error {
 		}
 		byKind[k][key] = vals[key]
 	}
-	if err := verifyObjectViews(o, vals, byKind, c.Kinds, st); err != nil {
+	if err := verifyObjectViews(o, vals, byKind, c.Kinds, c.Res, st); err != nil {
 		return err
 	}
 	for mi, m := range c.Muts {
@@ -569,14 +635,14 @@ func checkObjectViews(c *C14Case, st *Stats) error {
 			}
 			nowByKind[kd][k] = nowVals[k]
 		}
-		if err := verifyObjectViews(o, nowVals, nowByKind, nowKinds, NewStats()); err != nil {
+		if err := verifyObjectViews(o, nowVals, nowByKind, nowKinds, c.Res, NewStats()); err != nil {
 			return errf("after a later %s: %v", m.Op, err)
 		}
 	}
 	return nil
 }
 
-func verifyObjectViews(o at.Object, vals map[string]any, byKind map[Kind]map[string]any, kinds []Kind, st *Stats) error {
+func verifyObjectViews(o at.Object, vals map[string]any, byKind map[Kind]map[string]any, kinds []Kind, resMode int, st *Stats) error {
 	n := len(vals)
 	before, _ := TakeIdentSnap(o)
 	multiset := func(xs []any) []string {
@@ -623,13 +689,14 @@ func verifyObjectViews(o at.Object, vals map[string]any, byKind map[Kind]map[str
 		forEach func()
 		mapX    func() at.Object
 	}
+	var res func(any) any = func(x any) any { return tagOf(x) }
 	ops := []kindOps{
-		{KObject, func() { o.ForEachObject(func(x at.Object) { log = append(log, x) }) }, func() at.Object { return o.MapObjects(func(x at.Object) any { return tagOf(x) }) }},
-		{KList, func() { o.ForEachList(func(x at.List) { log = append(log, x) }) }, func() at.Object { return o.MapLists(func(x at.List) any { return tagOf(x) }) }},
-		{KString, func() { o.ForEachString(func(x string) { log = append(log, x) }) }, func() at.Object { return o.MapStrings(func(x string) any { return tagOf(x) }) }},
-		{KBool, func() { o.ForEachBool(func(x bool) { log = append(log, x) }) }, func() at.Object { return o.MapBools(func(x bool) any { return tagOf(x) }) }},
-		{KInt, func() { o.ForEachInt(func(x int) { log = append(log, x) }) }, func() at.Object { return o.MapInts(func(x int) any { return tagOf(x) }) }},
-		{KFloat, func() { o.ForEachFloat(func(x float64) { log = append(log, x) }) }, func() at.Object { return o.MapFloats(func(x float64) any { return tagOf(x) }) }},
+		{KObject, func() { o.ForEachObject(func(x at.Object) { log = append(log, x) }) }, func() at.Object { return o.MapObjects(func(x at.Object) any { return res(x) }) }},
+		{KList, func() { o.ForEachList(func(x at.List) { log = append(log, x) }) }, func() at.Object { return o.MapLists(func(x at.List) any { return res(x) }) }},
+		{KString, func() { o.ForEachString(func(x string) { log = append(log, x) }) }, func() at.Object { return o.MapStrings(func(x string) any { return res(x) }) }},
+		{KBool, func() { o.ForEachBool(func(x bool) { log = append(log, x) }) }, func() at.Object { return o.MapBools(func(x bool) any { return res(x) }) }},
+		{KInt, func() { o.ForEachInt(func(x int) { log = append(log, x) }) }, func() at.Object { return o.MapInts(func(x int) any { return res(x) }) }},
+		{KFloat, func() { o.ForEachFloat(func(x float64) { log = append(log, x) }) }, func() at.Object { return o.MapFloats(func(x float64) any { return res(x) }) }},
 	}
 	checkMapped := func(what string, r at.Object, want map[string]any) error {
 		if r.Count() != len(want) {
@@ -655,6 +722,24 @@ func verifyObjectViews(o at.Object, vals map[string]any, byKind map[Kind]map[str
 		if err := checkMapped(fmt.Sprintf("object Map<%v>", op.k), op.mapX(), want); err != nil {
 			return err
 		}
+		if resMode > 0 {
+			res = func(x any) any { return mapResult(resMode, x) }
+			got := op.mapX()
+			res = func(x any) any { return tagOf(x) }
+			if got.Count() != len(want) {
+				return errf("object Map<%v> with a callback returning nil or zero values produced %d fields for %d fields of that kind (%s)", op.k, got.Count(), len(want), clip(got.String(), 200))
+			}
+			for k, x := range want {
+				exp := mapResult(resMode, x)
+				if !got.KeyExists(k) {
+					return errf("object Map<%v>: the callback returned %s for key %q and the result has no such key (%s)", op.k, showAny(exp), k, clip(got.String(), 200))
+				}
+				if g := got.Get(k); !ifaceEq(g, exp) || got.TypeOf(k) != typeOfAny(exp) {
+					return errf("object Map<%v> result[%q] = %s, the callback returned %s", op.k, k, showAny(g), showAny(exp))
+				}
+			}
+			st.Count(fmt.Sprintf("map_result_mode%d.object", resMode))
+		}
 		if len(want) >= 2 {
 			st.Count("probed_with_repetition.object." + op.k.String())
 		}
@@ -671,6 +756,20 @@ func verifyObjectViews(o at.Object, vals map[string]any, byKind map[Kind]map[str
 	}
 	if err := checkMapped("object MapValues", o.MapValues(func(x any) any { return tagOf(x) }), vals); err != nil {
 		return err
+	}
+	if resMode > 0 {
+		for pass, got := range []at.Object{o.Map(func(k string, x any) any { return mapResult(resMode, x) }), o.MapValues(func(x any) any { return mapResult(resMode, x) })} {
+			what := []string{"object Map", "object MapValues"}[pass]
+			if got.Count() != n {
+				return errf("%s with a callback returning nil or zero values produced %d fields for %d fields", what, got.Count(), n)
+			}
+			for k, x := range vals {
+				exp := mapResult(resMode, x)
+				if !got.KeyExists(k) || !ifaceEq(got.Get(k), exp) || got.TypeOf(k) != typeOfAny(exp) {
+					return errf("%s: the callback returned %s for key %q, the result holds %s (present %v)", what, showAny(exp), k, showAny(got.Get(k)), got.KeyExists(k))
+				}
+			}
+		}
 	}
 	after, _ := TakeIdentSnap(o)
 	if !before.Same(after) {
@@ -711,7 +810,7 @@ func CheckC14(c *C14Case, st *Stats) error {
 
 func init() {
 	Register("C14",
-		"lists and objects of 0-16 (occasionally 33-130) elements, built through drawn construction routes (Add, NewList, NewListFrom, NewListOf+Replace, Concat, SubList, typed-slice origin + Insert, grow-and-shrink; objects optionally from a map[string]int), whose kind sequence is drawn from an alphabet of 1-4 of the seven kinds with repetition (several elements of one kind interleaved with others, kinds absent, empty container); element values are pairwise distinct and encode their position (the first element of each scalar kind may be the zero value). For every kind X of {object, list, string, bool, int, float}: XSlice, ForEachX (callback log), MapXs (injective tag), FilterXs (predicates all/none/alternate/by value; identity for containers), ReduceXs with non-commutative folds, AllXs and AllNumeric, plus the untyped ForEach/ForEachValue/Map/MapValues/Filter/Reduce (index and value, in order, once); for objects ForEach/ForEachValue/ForEachX as multisets and Map/MapValues/MapXs storing under the same key and nothing else. The method table is compared with the interface by reflection (unknown view methods are reported as unclassified). Non-trivial = some kind occurs at least twice with an element of another kind between. Distinct = distinct FNV-64a hash of the case JSON.",
+		"lists and objects of 0-16 (occasionally 33-130) elements, built through drawn construction routes (Add, NewList, NewListFrom, NewListOf+Replace, Concat, SubList, typed-slice origin + Insert, grow-and-shrink; objects optionally from a map[string]int), whose kind sequence is drawn from an alphabet of 1-4 of the seven kinds with repetition (several elements of one kind interleaved with others, kinds absent, empty container); element values are pairwise distinct and encode their position (the first element of each scalar kind may be the zero value). For every kind X of {object, list, string, bool, int, float}: XSlice, ForEachX (callback log), MapXs (injective tag; in half of the cases a second pass whose callback returns nil for every / about half of the values, the value itself, or the zero value of the kind - each result must be stored as returned, nil included), FilterXs (predicates all/none/alternate/by value; identity for containers), ReduceXs with non-commutative folds, AllXs and AllNumeric, plus the untyped ForEach/ForEachValue/Map/MapValues/Filter/Reduce (index and value, in order, once); for objects ForEach/ForEachValue/ForEachX as multisets and Map/MapValues/MapXs storing under the same key and nothing else. The method table is compared with the interface by reflection (unknown view methods are reported as unclassified). Non-trivial = some kind occurs at least twice with an element of another kind between. Distinct = distinct FNV-64a hash of the case JSON.",
 		GenC14, CheckC14)
 }
 
